@@ -48,13 +48,14 @@ package main
 //@   ghost glooked bool = false
 //@   ghost gpass bool = true
 //@   at LookupOwner#1 before set glooked = true
-//@   at LookupOwner#1 before set gpass = includeParts == nil || includeParts[part.Partition]
+//@   at LookupOwner#1 before set gpass = include == nil || includeParts[part.Partition]
+//@   at len#2 before assert [C27.group_filter_is_the_topic_entry_of_the_retry_set] include != nil && includeParts == include[topic.Topic]
 //@   at LookupOwner#1 before assert [C27.group_owner_lookup_is_for_this_partition] arg0 == topic.Topic && arg1 == part.Partition
 //@   at append#2 before assert [C27.group_partition_unchanged] len(arg1) == 1 && arg1[0] == part
-//@   at append#2 before assert [C27.group_partition_passes_filter] ite(glooked, gpass, includeParts == nil || includeParts[part.Partition])
+//@   at append#2 before assert [C27.group_partition_passes_filter] ite(glooked, gpass, include == nil || includeParts[part.Partition])
 //@   at append#2 before assert [C27.group_partition_goes_to_owner_group] has(groups, addr) && groups[addr] == subReq && 0 <= idx && idx < len(subReq.Topics)
 //@   at append#2 before set gn = gn + 1
-//@   at loopstep#2 assert [C27.group_included_partition_once] gn == ite(ite(glooked, gpass, includeParts == nil || includeParts[part.Partition]), 1, 0)
+//@   at loopstep#2 assert [C27.group_included_partition_once] gn == ite(ite(glooked, gpass, include == nil || includeParts[part.Partition]), 1, 0)
 
 // ---- forwardProduce: resend rule, provenance, leftovers ----
 //@ func (p *proxy) fanOutProduce
@@ -98,13 +99,14 @@ package main
 //@   ghost glooked bool = false
 //@   ghost gpass bool = true
 //@   at LookupOwner#1 before set glooked = true
-//@   at LookupOwner#1 before set gpass = includeParts == nil || includeParts[part.Partition]
+//@   at LookupOwner#1 before set gpass = include == nil || includeParts[part.Partition]
+//@   at len#2 before assert [C27.fetch_group_filter_is_the_topic_entry_of_the_retry_set] include != nil && includeParts == include[key]
 //@   at LookupOwner#1 before assert [C27.fetch_group_owner_lookup_is_for_this_partition] arg0 == topic.Topic && arg1 == part.Partition
 //@   at append#2 before assert [C27.fetch_group_partition_unchanged] len(arg1) == 1 && arg1[0] == part
-//@   at append#2 before assert [C27.fetch_group_partition_passes_filter] ite(glooked, gpass, includeParts == nil || includeParts[part.Partition])
+//@   at append#2 before assert [C27.fetch_group_partition_passes_filter] ite(glooked, gpass, include == nil || includeParts[part.Partition])
 //@   at append#2 before assert [C27.fetch_group_partition_goes_to_owner_group] has(groups, addr) && groups[addr] == subReq && 0 <= idx && idx < len(subReq.Topics)
 //@   at append#2 before set gn = gn + 1
-//@   at loopstep#2 assert [C27.fetch_group_included_partition_once] gn == ite(ite(glooked, gpass, includeParts == nil || includeParts[part.Partition]), 1, 0)
+//@   at loopstep#2 assert [C27.fetch_group_included_partition_once] gn == ite(ite(glooked, gpass, include == nil || includeParts[part.Partition]), 1, 0)
 
 //@ func (p *proxy) fanOutFetch
 //@   modular
